@@ -22,6 +22,8 @@ def _audit(event, args):
     if event == "open" or event in ("os.listdir", "os.scandir", "os.mkdir", "os.remove", "os.rename", "os.rmdir",
                                     "shutil.rmtree"):
         p = args[0] if args else None
+        if hasattr(p, "__fspath__"):
+            p = os.fspath(p)
         if isinstance(p, bytes):
             p = p.decode("utf-8", "replace")
         if isinstance(p, str) and p.startswith(root):
